@@ -507,7 +507,26 @@ def r4_saved_position(ctx, rule):
     facts = {'save_session_calls': calls, 'queue_writes': {str(k): v for k, v in writes.items()}}
     ok = 'self.pqueue.update_save_config' in calls and w in ('str(self.max_probability)', 'repr(self.max_probability)') \
         and any(c and c.endswith('.write') for c in calls)
-    # the update must not be conditional on anything but the mode
+    # the update must not be conditional on anything but the mode - and on the mode the right way round
+    smod = ctx.repo.modules[CSF]
+    for c in calls_in(sfn):
+        if call_name(c) == 'self.pqueue.update_save_config':
+            for t, pol in path_conditions(smod, _stmt_of(smod, c)):
+                txt = U(t)
+                if txt in ("self.mode == 'priority_queue'", "'priority_queue' == self.mode"):
+                    if not pol:
+                        ok = False
+                elif txt in ("self.mode != 'priority_queue'", "'priority_queue' != self.mode"):
+                    if pol:
+                        ok = False
+                else:
+                    ctx.unk(rule, sq, 'the queue position is saved under a condition this rule does not know: ' + txt[:60])
+                    return
+            if not ok:
+                ctx.bad(rule, sq, 'the queue position is saved only when the mode is NOT priority_queue',
+                        'in the probability-order mode every save must carry the position of the queue (max_probability / min_probability); '
+                        'without them the save file describes nothing', facts, c, firm=True)
+                return
     if ok:
         ctx.ok(rule, sq, '_save_session -> PcfgQueue.update_save_config writes max_probability = str(self.max_probability) '
                'and the config is written to disk', facts)
